@@ -381,4 +381,24 @@ def Run.step (r : Run) (op : Op) : Run := (r.stepObs op).1
 def run (peerMax localMax : Nat) (ops : List Op) : Run :=
   ops.foldl Run.step (Run.config peerMax localMax)
 
+/-! ## integration: what `Components::packages()` offers to the packet assembler
+(`qconnection/src/path/burst.rs`, `impl Components { fn packages }`): the 0-RTT sources are
+`Repeat(reliable_frames)`, `Repeat(data_streams.package(..))`, `// TODO: datagram`; the 1-RTT sources
+are the crypto stream, `Repeat(reliable_frames)`, `Repeat(data_streams.package(..))`,
+`// TODO: datagram`.  `DatagramFlow::try_load_data_into` has no caller. -/
+
+inductive Source where
+  | crypto | reliableFrames | streams | datagrams
+  deriving Repr, DecidableEq, Inhabited
+
+def zeroRttSources : List Source := [.reliableFrames, .streams]
+def oneRttSources : List Source := [.crypto, .reliableFrames, .streams]
+
+/-- the datagram part of one assembly pass that has `remaining` bytes left for it -/
+def assembleDatagrams (sources : List Source) (remaining : Nat) (s : Sender) : Sender × Pkt :=
+  if sources.contains .datagrams then
+    let (s', p, _) := loadN (remaining + 1) remaining s
+    (s', p)
+  else (s, [])
+
 end GmQuic.Datagram
